@@ -274,6 +274,18 @@ func runC06(c *mon.Ctx) {
 					c.Sample(map[string]interface{}{"valid_encoding": hx(enc[:]), "alias_x_plus_p": hx(be32(new(big.Int).Add(x, ref.P))), "uncompressed": hx(cat(a.X, yL))})
 				}
 			}
+			// x whose Montgomery representation is a small integer, and limb-structured x (the oracle decides what they are)
+			for j := 0; j < 24; j++ {
+				k := int64(1 + rng.Intn(5000))
+				x := new(big.Int).Mod(new(big.Int).Mul(big.NewInt(k), rInvFp), ref.P)
+				c06compressed(c, be32(x), "x-montgomery-small", rng)
+				if yL, _, ok := ref.YFromX(x); ok {
+					c06uncompressed(c, append(be32(x), be32(yL)...), "u:x-montgomery-small,ylarge", rng)
+				}
+				l := repLambdas[rng.Intn(len(repLambdas))]
+				lx := new(big.Int).Mod(new(big.Int).Add(l, big.NewInt(int64(rng.Intn(64)))), ref.P)
+				c06compressed(c, be32(lx), "x-limb-structured", rng)
+			}
 			// boundary values
 			if b%8 == 0 {
 				r := ref.R
